@@ -67,7 +67,9 @@ class ChainGen:
         if r.random() < 0.6:
             return ("tup", [self.rand_shape(leaves_avail, d - 1) for _ in range(r.randrange(1, 4))], r.choice(["tuple", "tuple", "list"]))
         # string keys (read back by attribute or subscript) and integer keys (subscript only)
-        pool = ["a", "k", "c", "pt", "jets"] if r.random() < 0.7 else ["a", 0, 1, "k", 2]
+        # also field names that coincide with methods of dict (values, items, keys, get, copy ...): they are keys like any other
+        pool = r.choice([["a", "k", "c", "pt", "jets"], ["a", "k", "c", "pt", "jets"], ["values", "items", "a", "keys", "get"],
+                         ["copy", "pop", "update", "k", "values"]]) if r.random() < 0.7 else ["a", 0, 1, "k", 2]
         keys = r.sample(pool, r.randrange(1, 4))
         return ("dict", [(k, self.rand_shape(leaves_avail, d - 1)) for k in keys])
 
@@ -339,6 +341,8 @@ PROBES = [
     ("Select(Select(ds, lambda e: {0: e.jets, 1: e.met}), lambda d: Count(d[0]) + d[1])", ("leaf", "int")),
     ("Select(Select(ds, lambda e: ({'jets': e.jets, 1: e.met}, e.a)), lambda t: t[0][1] + t[-1] + Count(t[0]['jets']))", ("leaf", "int")),
     ("ds.Select(lambda e: (e.jets, e.met)).SelectMany(lambda t: t[0].Select(lambda j: (j, t[1]))).Where(lambda p: p[0].pt > p[1]).Select(lambda p: p[0].pt)", ("leaf", "int")),
+    ("Select(Select(ds, lambda e: {'values': e.a, 'items': (e.b, e.met), 'get': e.jets}), lambda h: h.values + h.items[0] + Count(h.get))", ("leaf", "int")),
+    ("Select(Where(Select(ds, lambda e: {'values': e.jets, 'weight': e.met}), lambda h: h.weight > 0), lambda h: Select(h.values, lambda j: j.pt + h.weight))", ("leaf", "int")),
     ("Select(Select(ds, lambda e: First(Select(e.jets, lambda j: (j.pt, j.a)))), lambda f: f[0])", ("leaf", "int")),
     ("Select(Select(ds, lambda e: (First(Select(e.jets, lambda j: (j.pt, j.a))), e.met)), lambda u: u[0][0] + u[1])", ("leaf", "int")),
     ("Select(Where(Select(ds, lambda e: First(Select(e.jets, lambda j: [j.pt, (j.a, e.met)]))), lambda f: f[1][0] > 0), lambda f: f[0] + f[1][1])", ("leaf", "int")),
